@@ -48,7 +48,7 @@ def demand (X : StopStage ι ο σ) :
   | ⟨s, [], r, false⟩, x :: xs =>
     if X.done s then X.finish s r (x :: xs)
     else X.demand ⟨(X.base.onItem s x).1, (X.base.onItem s x).2, r + 1, false⟩ xs
-termination_by c xs => (xs.length, c.pend.length)
+termination_by structural _ xs => xs
 
 /-- `K` consecutive `next()` calls, failed ones included: (an output was delivered, pull counter
     of the source afterwards) -/
